@@ -21,6 +21,10 @@ CORPUS = [
     # FIN lost, empty FIN frame retransmitted
     "flow 50", "push 20", "finish", "transmit 0 20 n", "transmit 1 20 n", "loss 0 0", "transmit 2 1 n",
     "transmit 3 0 n", "transmit 4 19 n", "transmit 5 100 r", "ack 2 5", "ack 1 1", "reset",
+    # FIN acknowledged while earlier data is still outstanding, then a reset (seeded change C12-2: `stop_sending` must still
+    # cancel everything in `Finishing(Acknowledged)`), followed by loss / transmit attempts
+    "flow 1000", "push 100", "transmit 0 50 n", "finish", "transmit 1 100 n", "ack 1 1", "stop", "loss 0 0", "transmit 2 100 n",
+    "ack 0 0", "reset",
 ]
 
 
@@ -74,6 +78,10 @@ def gen(rng, n, tier):
                 finished = True
             else:
                 lines.append("stop")
+        if rng.random() < 0.2:
+            # tail: FIN in its own packet, only that packet acknowledged, then a reset and further events
+            lines += ["finish", f"transmit {pn} 1200 n", f"transmit {pn + 1} 1200 n", f"ack {pn + 1} {pn + 1}", "stop",
+                      f"loss {pn} {pn}", f"transmit {pn + 2} 1200 n", f"ack 0 {pn + 2}"]
         lines.append("reset")
     return lines
 
